@@ -371,6 +371,18 @@ func runC08(s *Sim) {
 			s.Violate("C08.ctx-ignored", "victim:"+victimKind+":while:"+kind, "%s with a %v deadline, issued while %s (ctx=%s, broker: %s) was in flight: %s", victimKind, victimTO, kind, target.ctxString(), behaviour, lateString(victim, d))
 		}
 	}
+	// the broker answers every ping at once in these runs and the link stays up under these
+	// behaviours: a redial means the client stopped processing what the link delivers (pongs
+	// included) and gave up a live connection
+	switch behaviour {
+	case "answer", "delay", "drop", "misaddress", "misaddress-spontaneous", "refuse":
+		s.mu.Lock()
+		dials := s.Net.Dials
+		s.mu.Unlock()
+		if dials > 1 && ackTO == 0 && y.CloseOp == nil {
+			s.Violate("C08.dispatcher-stalled", kind+":"+behaviour, "the client redialled (%d dials) although the broker answered every ping and the link never failed (target %s, broker behaviour %q at reply #%d): its dispatching had stopped", dials, kind, behaviour, position)
+		}
+	}
 	// once Conn.Close has returned the connection never comes back: a call that was waiting for it
 	// (whatever its context) must end too
 	for _, pair := range [][2]*Op{{target, victim}, {victim, target}} {
